@@ -95,12 +95,12 @@ VAM_HIST = "all histories of 3 API calls (AllocateMemory in 4-6 flag/type varian
 VDEF = "defragmentation through the public API: custom TLSF pool with explicit 256-byte blocks (max 3), four allocations of symbolic sizes spilling into a second block (two optionally persistently mapped), one or two holes freed, full run of up to 3 passes (quick: every move copied; thorough: copy/ignore/destroy per pass, 5 allocations), both algorithms"
 
 checks["C02"] = {"level": "model_checking",
- "jobs": [vjob("Verif_C02_Hist", [0], [0, 1, 2, 32, 64]), vjob("Verif_C02_VDefrag", [0, 32, 192], [0, 32, 128, 192, 224])],
+ "jobs": [vjob("Verif_C02_Hist", [0], [0, 1, 2, 32]), vjob("Verif_C02_VDefrag", [0, 32, 192], [0, 32, 128, 192, 224])],
  "bounds_quick": VAM_HIST + "; " + VDEF + ". After every call: memory object live on the device and of a permitted type, range inside the object, requested and pool-minimum alignment, pairwise disjoint within a memory object, dedicated allocations alone at offset 0.",
  "bounds_thorough": "4 calls; device variants granularity 1024 / atom 64; custom pools (4 variants incl. linear) and multi-allocations of 2",
  "assumptions": VAM_ASSUME, "outside": VAM_OUT}
 checks["C04"] = {"level": "model_checking",
- "jobs": [vjob("Verif_C04_Hist", [0, 4], [0, 4, 32, 64]), vjob("Verif_C04_VDefrag", [0], [0, 32]), vjob("Verif_C10_Faults", [96, 128], [96, 128, 0, 64])],
+ "jobs": [vjob("Verif_C04_Hist", [0, 4], [0, 4, 32]), vjob("Verif_C04_VDefrag", [0], [0, 32]), vjob("Verif_C10_Faults", [96, 128], [96, 128, 0, 64])],
  "bounds_quick": VAM_HIST + "; " + VDEF + ". After every call CalculateStatistics (per type, per heap, total: block count/bytes, allocation count/bytes, min/max) and HeapBudget (statistics, usage) are compared with the simulated device's live objects and the harness' live set. Fault sequences: the multi-allocation operations of the C10 fault-injection harness are run for C04 as well (statistics after a part-way failure); the other operations see C10.",
  "bounds_thorough": "4 calls, pools, multi-allocations",
  "assumptions": VAM_ASSUME + ["memory-budget extension off (usage == block bytes)"], "outside": VAM_OUT + "; JSON rendering (BuildStatsString)"}
@@ -123,7 +123,7 @@ checks["C10"] = {"level": "fault_enumeration",
  "bounds_thorough": "history of 2 calls, 2 faults everywhere, atom-64 variant",
  "assumptions": VAM_ASSUME + ["fault kinds: VK_ERROR_OUT_OF_DEVICE_MEMORY for allocate/bind, VK_ERROR_MEMORY_MAP_FAILED for map, VK_ERROR_OUT_OF_HOST_MEMORY for create"], "outside": VAM_OUT + "; faults in GetMemoryRequirements2 / image paths"}
 checks["C11"] = {"level": "model_checking",
- "jobs": [vjob("Verif_C11_Hist", [4, 8, 36], [4, 8, 12, 36, 68]), vjob("Verif_C11_OverBudget", [0], [0, 4]), vjob("Verif_C11_Race", [0], [0])],
+ "jobs": [vjob("Verif_C11_Hist", [4, 8, 36], [4, 8, 12, 36]), vjob("Verif_C11_OverBudget", [0], [0, 4]), vjob("Verif_C11_Race", [0], [0])],
  "bounds_quick": VAM_HIST + " on devices with heap size limits {512,1024}, maxMemoryAllocationCount 2, and custom pools (min/max block counts); after every call: device bytes per heap <= limit, live memory objects <= count limit, pool block counts within [min,max], no AllocateMemory driver call during a never-allocate request, a dedicated request owns an object of exactly the requested size; two goroutines racing for the last bytes of a heap limit (all schedules with at most 2 pre-emptions)",
  "bounds_thorough": "4 calls, multi-allocations",
  "assumptions": VAM_ASSUME, "outside": VAM_OUT + "; the race clause is covered only in the reduced form of C12's schedule exploration: two goroutines, two dedicated requests of symbolic size racing for a 512-byte heap limit, at most two pre-emptions"}
